@@ -186,14 +186,33 @@ impl Idle {
                             radio::Response::TxDone(ms) => {
                                 data_rxwindow1_timeout::<R, N>(frame, rx_windows, mac, radio, ms)
                             }
-                            _ => (State::Idle(self), Err(Error::UnexpectedRadioResponse.into())),
+                            _ => abort_uplink(self, frame, mac)
+                                .unwrap_or((State::Idle(self), Err(Error::UnexpectedRadioResponse.into()))),
                         }
                     }
-                    Err(e) => (State::Idle(self), Err(super::Error::Radio(e))),
+                    Err(e) => abort_uplink(self, frame, mac)
+                        .unwrap_or((State::Idle(self), Err(super::Error::Radio(e)))),
                 }
             }
         }
     }
+}
+
+/// Ends an uplink procedure whose transmit request failed. The data frame, and with it the current
+/// FCntUp, has already been handed to the radio, so the counter must never be used for another
+/// frame: account for the uplink exactly as a procedure without downlink does. Returns the
+/// transition to report when that exhausts the counter space.
+fn abort_uplink<R: radio::PhyRxTx>(
+    idle: Idle,
+    frame: Frame,
+    mac: &mut Mac,
+) -> Option<(State, Result<Response, super::Error<R>>)> {
+    if let Frame::Data = frame
+        && let mac::Response::SessionExpired = mac.rx2_complete()
+    {
+        return Some((State::Idle(idle), Ok(Response::SessionExpired)));
+    }
+    None
 }
 
 #[derive(Copy, Clone)]
